@@ -286,6 +286,20 @@ theorem modeF_sorted_unique (rev : Bool) (s s' l : List F64) (h : IsSortedF rev 
     sameF (modeF s) (modeF s') = true := by
   rw [sameF_iff, skey_modeF, skey_modeF, sorted_skey_eq rev s s' l h h']
 
+/-- An arrangement is sorted for one direction iff its reverse is sorted for the other. -/
+theorem isSortedF_reverse (rev : Bool) (s l : List F64) : IsSortedF rev s l ↔ IsSortedF (!rev) s.reverse l := by
+  unfold IsSortedF
+  constructor
+  · intro ⟨hp, hs⟩
+    refine ⟨(List.reverse_perm s).trans hp, ?_⟩
+    rw [List.pairwise_reverse]
+    cases rev <;> simpa using hs
+  · intro ⟨hp, hs⟩
+    refine ⟨(List.reverse_perm s).symm.trans hp, ?_⟩
+    rw [List.pairwise_reverse] at hs
+    cases rev <;> simpa using hs
+
+
 /-! ### when an appended sample leaves the slice sorted -/
 
 theorem isSortedF_append_iff (rev : Bool) (o l : List F64) (v : F64) (h : IsSortedF rev o l) :
